@@ -190,6 +190,7 @@ func checkTokens(s string, mode int, lm *lineMap, st *stats) *finding {
 	}
 	prevEnd := 0 // first byte not covered by the previous tokens
 	var prev *token.Token
+	prevVerified := true // the previous token's end line/column was checked (it is not when the token ends in a newline)
 	n := 0
 	for {
 		t := l.Next()
@@ -222,7 +223,7 @@ func checkTokens(s string, mode int, lm *lineMap, st *stats) *finding {
 		// start position. When text was skipped between the previous token (whose own span has just been verified) and
 		// this one, the skipping code is the construct at fault, not the previous token.
 		startCulprit := family(prev, s)
-		if gap := s[prevEnd:a]; gap != "" {
+		if gap := s[prevEnd:a]; gap != "" && prevVerified {
 			if strings.ContainsAny(gap, "#/*") {
 				startCulprit = "comment skipped between tokens"
 			} else {
@@ -240,8 +241,10 @@ func checkTokens(s string, mode int, lm *lineMap, st *stats) *finding {
 			return &finding{"token line/column disagrees with its byte offset, construct: " + startCulprit,
 				"start column: " + show() + fmt.Sprintf("; byte %d is column %d of its line", a, lm.col[a])}
 		}
+		verified := false
 		if b == a-1 {
 			st.empty++
+			verified = prevVerified
 		} else {
 			// end position: last byte of the last character
 			if !lm.boundary[b+1] {
@@ -249,7 +252,9 @@ func checkTokens(s string, mode int, lm *lineMap, st *stats) *finding {
 			}
 			if s[b] == '\n' {
 				st.endNL++
+				verified = t.Type == token.NEWLINE // a NEWLINE token is the ordinary case; any other token swallowing a newline is suspect
 			} else {
+				verified = true
 				if int32(sp.EndPos.Line) != lm.line[b] {
 					return &finding{"token line/column disagrees with its byte offset, construct: " + family(t, s),
 						"end line: " + show() + fmt.Sprintf("; byte %d is on line %d", b, lm.line[b])}
@@ -265,6 +270,7 @@ func checkTokens(s string, mode int, lm *lineMap, st *stats) *finding {
 		}
 		prevEnd = b + 1
 		prev = t
+		prevVerified = verified
 	}
 	return nil
 }
